@@ -24,3 +24,28 @@ package volatility
 //@ ensures[C05] "range" forall kk :: 0 <= kk && kk < len(result) ==> 0 - 1 <= result[kk] && result[kk] <= 1
 //@ ensures[C03] consumed(snapshots) == len(snapshots) && closed(result)
 //@ ensures[C04] forall kk :: 0 <= kk && kk < len(result) ==> hor(result, kk) <= hor(snapshots, kk)
+
+// ---- reports (C14): every column has one value per date row; rows carry that date's close, annotation, outcome ----
+//@ func BollingerBandsStrategy.Report
+//@ requires b.BollingerBands.Period >= 1 && consumed(c) == 0 && (forall k :: 0 <= k && k < len(c) ==> c[k].Close > 0)
+//@ ensures[C14] "column-count" len(result.Columns) == 6
+//@ ensures[C14] "one-value-per-date" len(c) > (b.BollingerBands.IdlePeriod()) ==> (forall i :: 0 <= i && i < len(result.Columns) ==> len(col(result.Columns[i])) == len(result.Date))
+//@ ensures[C14] "dates" len(c) > (b.BollingerBands.IdlePeriod()) ==> len(result.Date) <= len(c) && (forall k :: 0 <= k && k < len(result.Date) ==> result.Date[k] == c[k + len(c) - len(result.Date)].Date)
+//@ ensures[C14] "close" len(c) > (b.BollingerBands.IdlePeriod()) ==> (forall k :: 0 <= k && k < len(result.Date) ==> colnum(result.Columns[0])[k] == c[k + len(c) - len(result.Date)].Close)
+//@ ensures[C14] "annotation" len(c) > (b.BollingerBands.IdlePeriod()) ==> (forall k :: 0 <= k && k < len(result.Date) ==> colstr(result.Columns[4])[k] == (normS(res(BollingerBandsStrategy_Compute), k + len(c) - len(result.Date)) == 0 - 1 ? "S" : (normS(res(BollingerBandsStrategy_Compute), k + len(c) - len(result.Date)) == 1 ? "B" : "")))
+//@ ensures[C14] "outcome" len(c) > (b.BollingerBands.IdlePeriod()) ==> (forall k :: 0 <= k && k < len(result.Date) ==> colnum(result.Columns[5])[k] == res(Outcome)[k + len(c) - len(result.Date)] * 100)
+//@ ensures[C03] consumed(c) == len(c)
+//@ use nlast_hold(res(BollingerBandsStrategy_Compute), len(res(BollingerBandsStrategy_Compute)) - len(arg(ActionsToAnnotations, 0, 0)), len(res(BollingerBandsStrategy_Compute)) - len(arg(ActionsToAnnotations, 0, 0)))
+//@ use nlast_skip(res(BollingerBandsStrategy_Compute), arg(ActionsToAnnotations, 0, 0), len(res(BollingerBandsStrategy_Compute)) - len(arg(ActionsToAnnotations, 0, 0)))
+
+//@ func SuperTrendStrategy.Report
+//@ requires consumed(c) == 0 && (forall k :: 0 <= k && k < len(c) ==> c[k].Close > 0)
+//@ ensures[C14] "column-count" len(result.Columns) == 4
+//@ ensures[C14] "one-value-per-date" len(c) > (s.SuperTrend.IdlePeriod()) ==> (forall i :: 0 <= i && i < len(result.Columns) ==> len(col(result.Columns[i])) == len(result.Date))
+//@ ensures[C14] "dates" len(c) > (s.SuperTrend.IdlePeriod()) ==> len(result.Date) <= len(c) && (forall k :: 0 <= k && k < len(result.Date) ==> result.Date[k] == c[k + len(c) - len(result.Date)].Date)
+//@ ensures[C14] "close" len(c) > (s.SuperTrend.IdlePeriod()) ==> (forall k :: 0 <= k && k < len(result.Date) ==> colnum(result.Columns[0])[k] == c[k + len(c) - len(result.Date)].Close)
+//@ ensures[C14] "annotation" len(c) > (s.SuperTrend.IdlePeriod()) ==> (forall k :: 0 <= k && k < len(result.Date) ==> colstr(result.Columns[2])[k] == (normS(res(SuperTrendStrategy_Compute), k + len(c) - len(result.Date)) == 0 - 1 ? "S" : (normS(res(SuperTrendStrategy_Compute), k + len(c) - len(result.Date)) == 1 ? "B" : "")))
+//@ ensures[C14] "outcome" len(c) > (s.SuperTrend.IdlePeriod()) ==> (forall k :: 0 <= k && k < len(result.Date) ==> colnum(result.Columns[3])[k] == res(Outcome)[k + len(c) - len(result.Date)] * 100)
+//@ ensures[C03] consumed(c) == len(c)
+//@ use nlast_hold(res(SuperTrendStrategy_Compute), len(res(SuperTrendStrategy_Compute)) - len(arg(ActionsToAnnotations, 0, 0)), len(res(SuperTrendStrategy_Compute)) - len(arg(ActionsToAnnotations, 0, 0)))
+//@ use nlast_skip(res(SuperTrendStrategy_Compute), arg(ActionsToAnnotations, 0, 0), len(res(SuperTrendStrategy_Compute)) - len(arg(ActionsToAnnotations, 0, 0)))
